@@ -719,6 +719,28 @@ func zzFullNode(n int) (*zzEnv, *Manager, *zzDetExec, uint64, []*zzSlot, [][]byt
 	return e, m, ex, H, slots[1:], roots[1:]
 }
 
+// zzFreshFullNode: a syncing node started for the first time (real NewManager
+// on an empty store, no signer: the locally built unsigned genesis block is
+// in its store), plus the proposer's first n blocks.
+func zzFreshFullNode(n int) (*zzEnv, *Manager, *zzDetExec, uint64, []*zzSlot, [][]byte) {
+	I := zzsym.U64("I")
+	zzsym.Assume(I >= 1 && I <= 1<<40)
+	e := zzNewEnv(I)
+	ex := &zzDetExec{}
+	m, err := NewManager(context.Background(), nil, e.cfg, e.gen, e.store, ex, e.seq, nil, m0logger(), nil, nil, e.hb, e.db, NopMetrics(), 1, 1, DefaultManagerOptions())
+	zzsym.Assert(err == nil, "full-node-first-start")
+	if err != nil {
+		zzsym.Assume(false)
+	}
+	ne := make([]bool, n)
+	for i := range ne {
+		ne[i] = zzsym.Bool("nonempty")
+	}
+	slots, roots := e.zzProposerChain(I-1, n, ne, ex.initRoot)
+	zzsym.Assume(!e.gen.GenesisDAStartTime.After(slots[0].header.Time()))
+	return e, m, ex, I - 1, slots, roots
+}
+
 // ---- small doubles for C11/C13 -------------------------------------------------
 
 // zzC13DA: one DA height (7) holding one blob; everything later is from the future.
